@@ -187,7 +187,9 @@ func processFile(filePath string, ctxt *processors.Context, checkOnly bool) erro
 		line := scanner.Bytes()
 		line, indent, err = processLine(line, indent)
 		if err != nil {
+			// never write a file from which the offending line has been lost
 			logger.Error().Err(err).Msgf("failed to format %s", filename)
+			return err
 		}
 		lines = append(lines, string(line))
 	}
